@@ -1197,7 +1197,7 @@ Definition file_wf (full : Z) (resume : option (list step_arg * Z)) (steps : lis
   0 <= full /\
   match resume with
   | None => steps_in full (-1) steps = true /\ steps_last (-1) steps = full
-  | Some (hs, m) => steps_in full (-1) hs = true /\ m = Z.max (steps_last (-1) hs) 0 /\
+  | Some (hs, m) => steps_in full (-1) hs = true /\ m = Z.max (steps_last (-1) hs) 0 /\ m <= full /\
                     steps_in (full - m) (-1) steps = true /\ steps_last (-1) steps = full - m
   end.
 
@@ -1207,16 +1207,16 @@ Proof.
   intros [Hf H]. unfold file_ops. cbn [fold_left cb_next].
   destruct done as [[zd nowd] [[td sd] ed]].
   destruct resume as [[hs m]|].
-  - destruct H as [H1 [H2 [H3 H4]]]. cbn [app fold_left cb_next].
+  - destruct H as [H1 [H2 [Hm [H3 H4]]]]. cbn [app fold_left cb_next].
     replace (0 <=? full) with true by (symmetry; apply Z.leb_le; lia).
     rewrite <- app_assoc, fold_left_app, (cb_steps_sized full hs (-1) H1).
     cbn [app fold_left cb_next]. rewrite <- H2, Z.eqb_refl, Z.eqb_refl.
     rewrite fold_left_app, (cb_steps_data (full - m) steps (-1) H3).
-    cbn [fold_left mk_done cb_next]. rewrite H4, Z.eqb_refl. reflexivity.
+    cbn [fold_left mk_done cb_next]. rewrite H4, (Z.max_l (full - m) 0) by lia. rewrite Z.eqb_refl. reflexivity.
   - destruct H as [H1 H2]. cbn [app fold_left cb_next].
     replace (0 <=? full) with true by (symmetry; apply Z.leb_le; lia).
     rewrite fold_left_app, (cb_steps_sized full steps (-1) H1).
-    cbn [fold_left mk_done cb_next]. rewrite H2, Z.eqb_refl. reflexivity.
+    cbn [fold_left mk_done cb_next]. rewrite H2, (Z.max_l full 0) by lia. rewrite Z.eqb_refl. reflexivity.
 Qed.
 
 (* a whole transfer: onNum, then the files one after the other *)
